@@ -183,3 +183,129 @@ def invalid_cases():
         out += [f"{ys}-01-01T24:00:00", f"{ys}-01-01T23:60:00", f"{ys}-01-01T23:59:60", f"{ys}-01-01T99", f"{ys}0101T246060", f"{ys}-001T25:00"]
     out += ["T24", "T23:60", "T23:59:60", "24:00", "23:60:00", "0000-01-01", "0000-001", "0000-W01-1"]
     return out
+
+
+# =========================================================================================== durations (C13)
+DUS = 86400 * 10 ** 6
+SCALE_US = {"W": 7 * DUS, "D": DUS, "H": 3600 * 10 ** 6, "Mi": 60 * 10 ** 6, "S": 10 ** 6}
+_DUR_RE = None
+
+
+def dur_oracle(text):
+    """independent oracle: (years, months, exact Fraction of microseconds of the W/D/H/M/S part) or None when the
+    string is not a well-formed duration (designators in order, W alone, a fraction only on the last component and
+    never on years/months, at least one component) or its native value does not fit a timedelta"""
+    import re
+    from fractions import Fraction
+
+    global _DUR_RE
+    if _DUR_RE is None:
+        num = r"(\d+)(?:[.,](\d+))?"
+        _DUR_RE = re.compile(rf"P(?:{num}W|(?:{num}Y)?(?:{num}M)?(?:{num}D)?(?:T(?:{num}H)?(?:{num}M)?(?:{num}S)?)?)")
+    m = _DUR_RE.fullmatch(text)
+    if m is None:
+        return None
+    g = m.groups()
+    names = ("W", "Y", "Mo", "D", "H", "Mi", "S")
+    comps = [(names[i], g[2 * i], g[2 * i + 1]) for i in range(7) if g[2 * i] is not None]
+    if not comps:
+        return None
+    for i, (u, _, fr) in enumerate(comps):
+        if fr is not None and (i != len(comps) - 1 or u in ("Y", "Mo")):
+            return None
+    years = months = 0
+    tot = Fraction(0)
+    for u, iv, fr in comps:
+        if u == "Y":
+            years = int(iv)
+        elif u == "Mo":
+            months = int(iv)
+        else:
+            tot += (int(iv) + (Fraction(int(fr), 10 ** len(fr)) if fr else 0)) * SCALE_US[u]
+    native = tot + (years * 365 + months * 30) * DUS
+    if not (-999999999 * DUS <= round(native) <= 999999999 * DUS + DUS - 1):
+        return None
+    return years, months, tot
+
+
+def render_duration(comps, fsep="."):
+    """comps: [(unit, integer string, fraction string or '')] in written order"""
+    letter = {"Y": "Y", "Mo": "M", "W": "W", "D": "D", "H": "H", "Mi": "M", "S": "S"}
+    out = "P"
+    t = False
+    for u, iv, fr in comps:
+        if u in ("H", "Mi", "S") and not t:
+            out += "T"
+            t = True
+        out += iv + ((fsep + fr) if fr else "") + letter[u]
+    return out
+
+
+def duration_cases(rng, n, max_digits=10):
+    """well-formed durations: any non-empty subset of Y M D H M S (or W alone), integers of 1..max_digits digits,
+    optionally a fraction of 1..9 digits on the last component"""
+    units = ("Y", "Mo", "D", "H", "Mi", "S")
+    for _ in range(n):
+        if rng.random() < 0.12:
+            chosen = ["W"]
+        else:
+            mask = rng.randrange(1, 64)
+            chosen = [u for i, u in enumerate(units) if mask >> i & 1]
+        comps = []
+        for u in chosen:
+            r = rng.random()
+            nd = 1 if r < 0.3 else 2 if r < 0.6 else rng.randrange(1, min(6, max_digits + 1)) if r < 0.9 or max_digits < 6 else rng.randrange(6, max_digits + 1)
+            iv = "".join(rng.choice("0123456789") for _ in range(nd))
+            comps.append([u, iv, ""])
+        last = comps[-1]
+        if last[0] not in ("Y", "Mo") and rng.random() < 0.5:
+            last[2] = "".join(rng.choice("0123456789") for _ in range(rng.randrange(1, 10)))
+        fsep = rng.choice(".,")
+        text = render_duration(comps, fsep)
+        yield text, {"units": [c[0] for c in comps], "frac_unit": last[0] if last[2] else None, "frac_len": len(last[2]),
+                     "max_int": max(int(c[1]) for c in comps)}
+
+
+def invalid_durations():
+    out = ["P1M1Y", "P1D1M", "P1D1Y", "PT1M1H", "PT1S1M", "PT1S1H", "P1.5Y", "P1,5Y", "P1.5M", "P1Y1.5M", "P1.5Y1D", "P1.5DT1H", "P1.5DT0H", "PT1.5H1M", "PT1.5H1S",
+           "PT1.5M1S", "P1W1D", "P1WT1H", "P1W1Y", "P1Y1W", "P1.5W1D", "P1000000000D", "P142857143W", "P4294967296D", "P4294967297Y", "P1Y4294967296M", "PT99999999999999999999S",
+           "P99999999999D", "P10000000000Y", "P2739727Y", "P1.D", "P.5D", "P1.W", "PT1.S", "P-1D", "P1DT-1H", "P1d", "p1D", "P1D ", " P1D", "P1DT1H1D", "PTT1H", "P1YM", "P1H",
+           "PT1D", "PT1Y", "P1S"]
+    return out
+
+
+def interval_cases(rng, n):
+    """(text, start fields, offset seconds or None, duration text or None, end fields/offset) for the three forms"""
+    import datetime as _dt
+
+    def rand_dt():
+        y = rng.choice((1999, 2000, 2020, 2024, rng.randrange(1600, 9000)))
+        d = _dt.datetime(y, rng.randrange(1, 13), rng.choice((1, 15, 28, rng.randrange(1, 29))), rng.randrange(24), rng.randrange(60), rng.randrange(60),
+                         rng.choice((0, 0, 500000, rng.randrange(10 ** 6))))
+        off = rng.choice((None, 0, 0, 3600, -3600, 19800, -34200, rng.randrange(-1439, 1440) * 60))
+        return d, off
+
+    def render(d, off):
+        s = d.strftime("%Y-%m-%dT%H:%M:%S") if d.year >= 1000 else None
+        if d.microsecond:
+            s += f".{d.microsecond:06d}"
+        if off is None:
+            return s
+        if off == 0 and rng.random() < 0.5:
+            return s + "Z"
+        sign = "-" if off < 0 else "+"
+        a = abs(off) // 60
+        return s + f"{sign}{a // 60:02d}:{a % 60:02d}"
+
+    for _ in range(n):
+        a, oa = rand_dt()
+        form = rng.choice(("start/end", "start/duration", "duration/end"))
+        if form == "start/end":
+            b, ob = rand_dt()
+            yield f"{render(a, oa)}/{render(b, ob)}", {"form": form, "start": (a, oa), "end": (b, ob), "duration": None}
+        else:
+            dtext, dd = next(duration_cases(rng, 1, max_digits=3))
+            if form == "start/duration":
+                yield f"{render(a, oa)}/{dtext}", {"form": form, "start": (a, oa), "end": None, "duration": dtext, "frac_unit": dd["frac_unit"]}
+            else:
+                yield f"{dtext}/{render(a, oa)}", {"form": form, "start": None, "end": (a, oa), "duration": dtext, "frac_unit": dd["frac_unit"]}
